@@ -33,3 +33,25 @@ inductive ChunkRuns (N limit T : Nat) (kms : Nat → List Nat) (len : Nat → Na
 def allCanons (k : Nat) (recs : List (List Nat)) : List Nat := recs.flatMap (canons k)
 
 end KT
+
+namespace KT
+
+/-- C08: the multiplicity function that `compute_coverages` builds from the lines of the counts table
+    (`counts.insert(kmer, count)`; absent k-mers read as 0) -/
+def cntOfTable (tbl : List (Nat × Nat)) (x : Nat) : Nat :=
+  match tbl.find? (fun p => p.1 == x) with
+  | some p => p.2
+  | none => 0
+
+/-- C08: the coverage vectors file — one row per record, in input order -/
+def covFileSpec (k binSize binCount : Nat) (norm : Bool) (delim : List Nat)
+    (countingRecs recs : List (List Nat)) : List Nat :=
+  (recs.map fun s =>
+      rowText norm delim (covRowSpec k binSize binCount (countsOf k countingRecs) s) (windowCount k s)).flatten
+
+/-- C11: the j-base sub-square bounds of a coordinate: the last `j` corner bits `cs` (most recent first,
+    each 0 or 1) confine the coordinate to `[lo, lo + S/2^j]` (in scaled double units) -/
+def subsquareLo (S : Nat) (cs : List Nat) : Nat :=
+  (List.range cs.length).foldl (fun a t => a + (cs.getD t 0) * S * f64One / 2 ^ (t + 1)) 0
+
+end KT
